@@ -218,6 +218,8 @@ def instance_scenario(rng, root):
     body = ('class %(c)s(object):\n    depth = 1\n    def __init__(self):\n        self.%(a1)s = 1\n        self.%(a2)s = 2\n'
             '    def area(self):\n        self.%(a3)s = 3\n        return self.%(a1)s\n'
             '    @classmethod\n    def make(cls):\n        return cls.depth\n\n'
+            '    def derive(self):\n        x = self.area()\n        x.attr_x = 1\n        y = self\n        y.via_y = 2\n'
+            '        self.made = self.make()\n        self.made.deep = 3\n        return x\n\n'
             'class %(s)s(%(c)s):\n    kind = 2\n    def __init__(self):\n        self.tag_%(a1)s = 4\n'
             % {'c': cls, 's': subc, 'a1': a1, 'a2': a2, 'a3': a3})
     mfn = os.path.join(root, modname + '.py')
@@ -231,6 +233,12 @@ def instance_scenario(rng, root):
         cut = main.replace(full, '\n%s.\n' % expr)
         reqs.append(['assist', cut, _pos_after(cut, '\n%s.' % expr), fn])
         reqs.append(['location', main, _pos_after(main, '\n%s.%s' % (expr, attr)), fn])
+    # the class table first requested through `T.`, `T().` or `self.`, and values derived from self
+    for expr in ('%s.%s' % (modname, cls), '%s.%s()' % (modname, cls), '%s.%s().derive()' % (modname, cls), '%s.%s()' % (modname, subc)):
+        src = 'import %s\n%s.\n' % (modname, expr)
+        reqs.append(['assist', src, [2, len(expr) + 1], fn])
+    cut = body.replace('x = self.area()', 'x = self.')
+    reqs.append(['assist', cut, _pos_after(cut, 'x = self.'), mfn])
     cut = body.replace('return cls.depth', 'return cls.')
     reqs.append(['assist', cut, _pos_after(cut, 'return cls.'), mfn])
     cut = body.replace('return self.%s' % a1, 'return self.')
@@ -311,6 +319,19 @@ def project_histories(ctx, nproj, nseq):
                 ctx.known_finding(KNOWN_STAR, 'ring of three star-importing project modules: completion after `cyca.` depends on which '
                                   'module of the ring was asked about first (input: corpus/C04/known_%s.json)' % KNOWN_STAR)
     jobs = []
+    cdir = os.path.join(common.VERIF, 'corpus', 'C04')
+    for f in sorted(os.listdir(cdir)) if os.path.isdir(cdir) else []:
+        if f.startswith('project_') and f.endswith('.json'):
+            k = json.load(open(os.path.join(cdir, f)))
+            root = os.path.join(ctx.scratch, 'corpus_' + f[:-5])
+            os.makedirs(root)
+            for name, content in k['files'].items():
+                os.makedirs(os.path.dirname(os.path.join(root, name)), exist_ok=True)
+                open(os.path.join(root, name), 'w').write(content)
+            reqs = [[r[0], r[1], r[2], os.path.join(root, r[3])] for r in k['requests']]
+            jpath = os.path.join(root, 'job.json')
+            json.dump({'root': root, 'requests': reqs, 'sequences': k['sequences']}, open(jpath, 'w'))
+            jobs.append(('corpus:' + f, 0, root, reqs, k['sequences'], jpath))
     for pi in range(nproj):
         for kind, gen in (('relimport', relimport_scenario), ('instance', instance_scenario),
                           ('starcycle', starcycle_scenario), ('qualified', qualified_import_scenario)):
